@@ -149,15 +149,22 @@ def check_forms(rec, words, label):
         rec.event('identity.forms')
         if not (lem == fs[0] and hash(lem) == hash(fs[0]) and lem.script == fs[0].script and lem.id == fs[0].id):
             rec.violation('same-entity-unequal', f'{label}: lemma() of {w_.id} and forms()[0] differ: {lem!r}/{lem.script} vs {fs[0]!r}/{fs[0].script}')
+    # the same stored form reached twice is equal to itself and hashes alike ...
+    for w_ in words[:40]:
+        for a, b in zip(w_.forms(), w_.forms()):
+            rec.event('identity.form-pairs')
+            if not (a == b) or a != b or hash(a) != hash(b):
+                rec.violation('same-entity-unequal', f'{label}: form {str(a)!r} of {w_.id} obtained twice: == {a == b}, != {a != b}')
+                break
+    # ... and forms that differ in text or script are different, under == and under != (whether two stored forms with the
+    # same text and script in different words count as equal is left open: Form is a str value)
     for a, b in itertools.combinations(forms, 2):
+        if str(a) == str(b) and a.script == b.script:
+            continue
         rec.event('identity.form-pairs')
-        same = str(a) == str(b) and a.script == b.script
-        if (a == b) != same or (a != b) == same:
-            key = 'same-entity-unequal' if same else 'different-entities-equal'
-            rec.violation(key, f'{label}: forms {str(a)!r} (script {a.script}) and {str(b)!r} (script {b.script}): == gives {a == b}')
-            break
-        if same and hash(a) != hash(b):
-            rec.violation('same-entity-hash-differs', f'{label}: equal forms {str(a)!r} hash differently')
+        if a == b or not (a != b):
+            rec.violation('different-entities-equal', f'{label}: forms {str(a)!r} (script {a.script}) and {str(b)!r} (script {b.script}): '
+                          f'== gives {a == b}, != gives {a != b}')
             break
 
 
